@@ -203,8 +203,9 @@ def r17_3(ctx, prog, crate):
         return
     ctx.saw(init)
     # the user iterator is evaluated inside the init closure only
-    mk = [c for c in init.live_calls() if c.is_fn_trait_call and c.name.lstrip("*").endswith("make_args")]
-    mk_out = [c for c in rn.live_calls() if c.is_fn_trait_call and "make_args" in c.name]
+    # the user's iterator constructor: the only Fn*-trait call on a captured variable that takes no arguments
+    mk = [c for c in init.live_calls() if c.is_fn_trait_call and c.name.startswith("upvar:") and len(c.gargs) > 1 and c.gargs[1] == "()"]
+    mk_out = [c for c in rn.live_calls() if c.is_fn_trait_call and len(c.gargs) > 1 and c.gargs[1] == "()"]
     ctx.check(len(mk) == 1 and not mk_out, "R17.3", ["runner", "args-evaluated-once-inside-init"], "make_args() call sites: %d inside init, %d outside" % (len(mk), len(mk_out)), rn.where(0))
     aggs = [(bi, s) for bi, si, s in init.stmts() if s["k"] == "assign" and s["rv"]["k"] == "agg" and s["rv"]["ak"] == "adt" and norm(s["rv"]["adt"]) == "benchmark::args::ErasedArgsSlice"]
     if not ctx.check(len(aggs) == 1, "R17.3", ["runner", "one-ErasedArgsSlice"], "ErasedArgsSlice aggregates: %d" % len(aggs), init.where(0)):
